@@ -22,6 +22,7 @@ type Clause struct {
 	Line  int
 	Name  string // optional label
 	Lhs    ast.Expr   // ghostset: target gf_x(obj)
+	Params string     // ghostdef: parameter type
 	Frames []ast.Expr // cut: slice ranges that bound what the section wrote
 }
 
@@ -62,6 +63,7 @@ type LockInv struct {
 	Type, Mutex string
 	Guards      []string
 	Invs        []*Clause
+	Assumed     []*Clause // assumed at Lock, never asserted (recorded as assumptions)
 	Stable      []*Clause
 	Props       []string
 }
@@ -83,7 +85,7 @@ type Spec struct {
 var clauseKw = map[string]bool{
 	"pure": true, "func": true, "extern": true, "iface": true, "lockinv": true, "property": true,
 	"case": true, "requires": true, "ensures": true, "modifies": true, "loop": true, "cut": true,
-	"inline": true, "trusted": true, "field": true, "lemma": true, "guards": true, "invariant": true, "observe": true, "ghostset": true, "axiom": true,
+	"inline": true, "trusted": true, "field": true, "lemma": true, "guards": true, "invariant": true, "observe": true, "ghostset": true, "axiom": true, "ghostdef": true, "assumed": true,
 	"stable": true, "assert": true, "params": true, "ghost": true,
 }
 
@@ -233,6 +235,22 @@ func ParseSpec(path string) (*Spec, error) {
 			if len(fs) == 3 && fs[1] == "as" {
 				sp.Observes[fs[0]] = fs[2]
 			}
+		case "ghostdef":
+			// ghostdef gb_name(o *T) = expr
+			k := strings.Index(rest, " = ")
+			lp, rp := strings.Index(rest, "("), strings.Index(rest, ")")
+			if k < 0 || lp < 0 || rp < lp || rp > k {
+				return nil, fmt.Errorf("%s:%d: ghostdef gb_name(o *T) = expr expected", path, rc.line)
+			}
+			pf := strings.Fields(rest[lp+1 : rp])
+			if len(pf) != 2 {
+				return nil, fmt.Errorf("%s:%d: ghostdef parameter must be 'name *Type'", path, rc.line)
+			}
+			re, err := parseExpr(strings.TrimSpace(rest[k+3:]), rc.line)
+			if err != nil {
+				return nil, err
+			}
+			addClause(&Clause{Kind: "ghostdef", Text: rest, Expr: re, Name: strings.TrimSpace(rest[:lp]), Block: pf[0], Params: pf[1], Line: rc.line})
 		case "ghostset":
 			// ghostset gf_name(obj) = expr
 			k := strings.Index(rest, " = ")
@@ -284,6 +302,14 @@ func ParseSpec(path string) (*Spec, error) {
 				return nil, err
 			}
 			addClause(&Clause{Kind: kw, Text: body, Expr: e, Line: rc.line, Props: props})
+		case "assumed":
+			e, err := parseExpr(rest, rc.line)
+			if err != nil {
+				return nil, err
+			}
+			if curLock != nil {
+				curLock.Assumed = append(curLock.Assumed, &Clause{Kind: "assumed", Text: rest, Expr: e, Line: rc.line})
+			}
 		case "invariant", "stable":
 			props, body := splitProps(rest)
 			e, err := parseExpr(body, rc.line)
